@@ -592,7 +592,7 @@ pub fn main(tier: Tier) -> i32 {
         if r.accepted {
             accepted_bases.push((v.clone(), k.clone()));
         } else if *k != ContentK::EdgeBelow {
-            machinery_failure(&format!("base {:?} {:?} was not accepted by the semantic entry point ({}); the grid would be vacuous", v, k, r.class));
+            run.vacuous(&format!("base {:?} {:?} was not accepted by the semantic entry point ({})", v, k, r.class));
         }
     }
     // mutations around every accepted base
